@@ -1096,6 +1096,26 @@ Theorem C03_pacman_chk_prec_reset : forall cf st prev,
 Proof. exact pm_reset_chk_prec. Qed.
 Print Assumptions C03_pacman_chk_prec_reset.
 
+(* the same clauses for ONE MANAGER CALL -- any manager kind, any call (reset, step with any action
+   dictionary, in or out of protocol), the getters the manager invokes included: if no exception was flagged,
+   the call left grid and step_count alone, or it was a reset (step_count 0, the reset's grid), or it was a
+   step and clauses 2611 and 2612 hold between the states before and after the call.  By induction over the
+   call list this covers every record of `prun_snap`; what remains unproved is only the wire decode. *)
+Theorem C03_pacman_call_clauses : forall f cf k m c r m',
+  pac_not_baddie cf ->
+  do_call (pacman_sim_gen f cf) k m c = (r, m') ->
+  ps_bad (m_sim m) = false -> ps_bad (m_sim m') = false ->
+  (ps_grid (m_sim m') = ps_grid (m_sim m) /\ ps_count (m_sim m') = ps_count (m_sim m)) \/
+  (ps_grid (m_sim m') = ps_grid (pm_reset cf (m_sim m)) /\ ps_count (m_sim m') = 0) \/
+  (exists l,
+     ps_grid (m_sim m') = ps_grid (pm_step_gen f cf (m_sim m) l) /\
+     shares_b cf (ps_grid (m_sim m')) = false /\
+     (pac_active cf (ps_grid (m_sim m)) = true ->
+      ps_count (m_sim m') = if pac_active cf (ps_grid (m_sim m')) then ps_count (m_sim m) + 1
+                            else ps_count (m_sim m))).
+Proof. exact pacman_call_clauses. Qed.
+Print Assumptions C03_pacman_call_clauses.
+
 (* the hypothesis holds of the packaged board's configuration *)
 Example C03_pacman_not_baddie_nonvacuous : pac_not_baddie px_cf.
 Proof.
